@@ -63,6 +63,7 @@ class Gen:
             n += k
         self.subs = {}        # client -> current subscription
         self.meta = {}
+        self.committed = []   # recent commit entries (topic, partition, offset, metadata)
 
     def emit(self, s):
         self.ops.append(s)
@@ -221,10 +222,16 @@ class Gen:
         n = r.choice([1, 1, 1, 2, 3])
         out = []
         for _ in range(n):
+            if self.committed and r.chance(1, 3):
+                # commit the same position again, with other (or no) metadata: the last commit must still win
+                t, p, off, md = r.choice(self.committed)
+                out.append((t, p, off, r.choice([m for m in (0, 1, 2, 3, 4) if m != md])))
+                continue
             t = self.xtopic() if exotic else r.choice(SUB_TOPICS)
             p = r.choice([0, 0, 1, 2, 5, 10, -1]) if exotic else r.choice([0, 1, 2])
             off = r.choice([0, 1, 5, 41, 42, 100, 2 ** 40, -1])
             out.append((t, p, off, r.choice([0, 0, 1, 2, 3, 4])))
+        self.committed = (self.committed + out)[-6:]
         return out
 
     def commit(self, g=None, exotic=False):
